@@ -167,12 +167,16 @@ def check_container(fam, kind, impl, ls, rng, rec, quick):
     # tree that has just been opened from a database
     conn = None
     if is_tree and w is not None and not w.inline_nonroot and keys and \
-            rng.random() < 0.34 and getattr(c, '_p_jar', None) is None:
+            rng.random() < 0.34 and getattr(c, '_p_jar', None) is None \
+            and not ls.via_subclass:
         from .. import minidb
         try:
             conn = minidb.Connection(minidb.Storage(), impl)
             conn.add(c)
             conn.commit()
+            w.release()
+            if ls.walk is not None:
+                ls.walk.release()
             rec.ev(impl + ':ghost-tree')
         except Exception:
             conn = None
@@ -224,6 +228,8 @@ def check_container(fam, kind, impl, ls, rng, rec, quick):
         d = dict(family=fam.name, kind=kind, impl=impl, sizes=ls.sizes,
                  op=method, min=brief(mn), max=brief(mx), excludemin=emin,
                  excludemax=emax, observed=brief(ro[:2], 300),
+                 detail=brief(ro[2], 300) if len(ro) > 2 and ro[0] == 'exc'
+                 else None, ghost_tree=conn is not None,
                  expected=brief(mo[:2], 300), keys=brief(keys, 300),
                  leaves=brief(w.leaf_keys if w else None, 300),
                  shape=brief(w.shape if w else None),
